@@ -39,6 +39,15 @@ def gen_ws(rng):
                 for m in s['modifiers']:
                     if m['type'] in ('normsys', 'histosys') and not m['name'].startswith('long_systematic_uncertainty_name_'):
                         m['name'] = 'long_systematic_uncertainty_name_' + m['name']
+    root_names = (not many_constants) and rng.random() < 0.25
+    if root_names:
+        # pyhf names that already look like ROOT's: alpha_<x> for interpolated systematics, gamma_<x> for bin-wise ones (the export
+        # prefixes them again, the import strips one prefix)
+        for c in chans:
+            for s in c['samples']:
+                for m in s['modifiers']:
+                    if m['type'] in ('normsys', 'histosys') and not m['name'].startswith('alpha_'): m['name'] = 'alpha_' + m['name']
+                    if m['type'] == 'shapesys' and not m['name'].startswith('gamma_'): m['name'] = 'gamma_' + m['name']
     mods = sorted({(m['name'], m['type']) for c in chans for s in c['samples'] for m in s['modifiers']})
     pars = []
     if any(t == 'lumi' for _, t in mods):
@@ -54,7 +63,7 @@ def gen_ws(rng):
             if n != 'mu' and rng.random() < 0.3: p['fixed'] = True
             pars.append(p)
     for n in sorted({n for n, t in mods if t in ('normsys', 'histosys')}):
-        if rng.random() < 0.3 or many_constants: pars.append({'name': n, 'fixed': True})
+        if rng.random() < (0.6 if root_names else 0.3) or many_constants: pars.append({'name': n, 'fixed': True})
     rng.shuffle(pars)
     meas = [{'name': 'meas', 'config': {'poi': 'mu', 'parameters': pars}}]
     if rng.random() < 0.4:
